@@ -73,6 +73,8 @@ def generate(rng, tier="quick"):
             scn["abandon"].append({"task": fe, "after_yields": rng.randint(1, 3), "restart": True})
         elif x < 0.4:
             scn["reruns"].append(fe)
+            if rng.chance(0.3):
+                scn["reruns"].append(fe)  # a third run on the same objects
     return scn
 
 
